@@ -9,6 +9,7 @@ import (
 	"fmt"
 	"math/big"
 	"math/rand"
+	"runtime"
 	"strings"
 	"sync"
 	"time"
@@ -31,6 +32,7 @@ type mixEnv struct {
 	bothLd ld.DocumentLoader // both
 	mz     *merklize.Merklizer
 	mzDoc  []byte
+	paths  []merklize.Path // shared paths with spare capacity in their parts (see sharedPaths)
 }
 
 type op struct {
@@ -188,6 +190,100 @@ func opProofMz(dotted string) op {
 			obs += ";entry=ok"
 		}
 		return obs
+	}}
+}
+
+// probeIsolation: a Merklizer's answers must not change when other documents are merklized
+// afterwards (no buffer or other state shared between merklizers).  Sequential and repeated a few
+// times, because whether a recycled buffer is handed out again is up to the runtime.
+func probeIsolation(valid []testDoc, loader ld.DocumentLoader, out *output) {
+	if len(valid) < 2 {
+		return
+	}
+	big := 0
+	for i := range valid {
+		if len(valid[i].JSON) > len(valid[big].JSON) && len(valid[i].Paths) > 0 {
+			big = i
+		}
+	}
+	obsOf := func(mz *merklize.Merklizer) string {
+		var sb strings.Builder
+		for _, d := range valid[big].Paths {
+			p, err := mz.ResolveDocPath(d)
+			if err != nil {
+				sb.WriteString(d + "=resolve-" + errClass(err) + ";")
+				continue
+			}
+			sb.WriteString(d + "=" + proofObs(mz, p) + ";")
+		}
+		return sb.String()
+	}
+	for attempt := 0; attempt < 6; attempt++ {
+		mz, err := merklize.MerklizeJSONLD(context.Background(), strings.NewReader(valid[big].JSON), merklize.WithDocumentLoader(loader))
+		if err != nil {
+			return
+		}
+		before := obsOf(mz)
+		for i := range valid {
+			if i == big {
+				continue
+			}
+			_, _ = merklize.MerklizeJSONLD(context.Background(), strings.NewReader(valid[i].JSON), merklize.WithDocumentLoader(loader))
+			if after := obsOf(mz); after != before {
+				out.addMismatch(mismatch{Goroutine: -1, Op: -1, Kind: "merklizer-changed-by-other-merklizations",
+					What: "sequential: Merklizer of " + valid[big].Name + " answers differently after " + valid[i].Name + " was merklized (attempt " + fmt.Sprint(attempt+1) + ")",
+					Want: before, Got: after})
+				return
+			}
+		}
+	}
+}
+
+// sharedPaths builds the paths every goroutine copies and extends.  Each has spare capacity in
+// its slice of parts (it was grown by one Append), so an Append that wrote into the capacity
+// shared by all copies would make the copies of different goroutines overwrite each other.
+func sharedPaths(doc []byte, loader ld.DocumentLoader, dotted []string) ([]merklize.Path, int, error) {
+	var out []merklize.Path
+	p, err := merklize.NewPath("https://www.w3.org/2018/credentials#credentialSubject",
+		"https://example.org/vocab#a", "https://example.org/vocab#b")
+	if err != nil {
+		return nil, 0, err
+	}
+	out = append(out, p)
+	for _, d := range dotted {
+		if rp, err := (merklize.Options{DocumentLoader: loader}).NewPathFromDocument(doc, d); err == nil {
+			out = append(out, rp)
+			break
+		}
+	}
+	spare := 0
+	for i := range out {
+		if err := out[i].Append("https://example.org/vocab#list"); err != nil {
+			return nil, 0, err
+		}
+		parts := out[i].Parts()
+		spare += cap(parts) - len(parts)
+	}
+	return out, spare, nil
+}
+
+// opPathAppend copies a shared path, appends an index of its own and hashes the result (and asks
+// the shared merklizer for a proof of that key).
+func opPathAppend(j, idx int) op {
+	return op{kind: "hash", arg: fmt.Sprintf("append|path%d|%d", j, idx), run: func(e *mixEnv) string {
+		if j >= len(e.paths) {
+			return "no-such-shared-path"
+		}
+		c := e.paths[j] // a copy of the Path value: shares the backing array of parts
+		if err := c.Append(idx); err != nil {
+			return errClass(err)
+		}
+		runtime.Gosched()
+		h, err := c.MtEntry()
+		if err != nil {
+			return errClass(err)
+		}
+		return fmt.Sprintf("parts=%v;key=%s;%s", c.Parts(), h.String(), proofObs(e.mz, c))
 	}}
 }
 
@@ -356,6 +452,11 @@ func buildPool(seed int64, sharedDoc testDoc, resolve func(dotted string) (merkl
 	}
 	add(opHash(xsd+"double", float64(rng.Intn(1_000_000))/8))
 	add(opHash(xsd+"string", []byte("unsupported go type")))
+	for j := 0; j < 2; j++ {
+		for idx := 0; idx < 16; idx++ {
+			add(opPathAppend(j, idx))
+		}
+	}
 	for _, alt := range []bool{false, true} {
 		add(opPath(alt, "https://www.w3.org/2018/credentials#credentialSubject", "https://example.org/vocab#name"))
 		add(opPath(alt, "https://example.org/vocab#list", 3, "https://example.org/vocab#item"))
@@ -478,7 +579,14 @@ func runMix(cfg *config, out *output) error {
 
 	// ---- sequential oracle: every op of the pool, one goroutine ----
 	merklize.SetDocumentLoader(oenv.loader) // default-loader ops of the oracle use the oracle's loader
-	oracleEnv := &mixEnv{loader: oenv.loader, cliLd: oenv.cliLd, bothLd: oenv.bothLd, mz: sharedMz, mzDoc: []byte(sharedDoc.JSON)}
+	probeIsolation(valid, oenv.loader, out)
+	oPaths, spare, err := sharedPaths([]byte(sharedDoc.JSON), oenv.loader, sharedDoc.Paths)
+	if err != nil {
+		return fmt.Errorf("shared paths: %v", err)
+	}
+	out.Distribution["shared_paths"] = int64(len(oPaths))
+	out.Distribution["shared_paths_spare_capacity"] = int64(spare)
+	oracleEnv := &mixEnv{loader: oenv.loader, cliLd: oenv.cliLd, bothLd: oenv.bothLd, mz: sharedMz, mzDoc: []byte(sharedDoc.JSON), paths: oPaths}
 	want := make([]string, len(pool))
 	var oracleRecs, sharedRecs []versionedRec
 	t0 := time.Now()
@@ -557,7 +665,11 @@ func runMix(cfg *config, out *output) error {
 	if err != nil {
 		return fmt.Errorf("shared merklizer (%s): %v", sharedDoc.Name, err)
 	}
-	sharedEnv := &mixEnv{loader: senv.loader, cliLd: senv.cliLd, bothLd: senv.bothLd, mz: concMz, mzDoc: []byte(sharedDoc.JSON)}
+	sPaths, _, err := sharedPaths([]byte(sharedDoc.JSON), oenv.loader, sharedDoc.Paths)
+	if err != nil {
+		return fmt.Errorf("shared paths: %v", err)
+	}
+	sharedEnv := &mixEnv{loader: senv.loader, cliLd: senv.cliLd, bothLd: senv.bothLd, mz: concMz, mzDoc: []byte(sharedDoc.JSON), paths: sPaths}
 
 	n, k := cfg.Goroutines, cfg.Ops
 	rngs := make([]*rand.Rand, n)
@@ -582,6 +694,12 @@ func runMix(cfg *config, out *output) error {
 	for _, i := range byKind["load"] {
 		if isVersionedURL(pool[i].arg) {
 			versionedOps = append(versionedOps, i)
+		}
+	}
+	var appendIdx []int // copy-and-Append operations on the shared paths
+	for _, i := range byKind["hash"] {
+		if strings.HasPrefix(pool[i].arg, "append|") {
+			appendIdx = append(appendIdx, i)
 		}
 	}
 	var slowOps []int // loads of slow origins whose responses are not cacheable / short-lived
@@ -614,6 +732,10 @@ func runMix(cfg *config, out *output) error {
 						// the last operation reads the shared merklizer again, after everybody has
 						// merklized other documents (buffers or state shared between merklizers)
 						idx = mzOps[rng.Intn(len(mzOps))]
+					}
+					if i == 7 && k > 8 && len(appendIdx) > 0 {
+						// everybody extends a copy of the same shared path by an index of its own
+						idx = appendIdx[(g+16*rng.Intn(2))%len(appendIdx)]
 					}
 					if (i == 3 || (i == 0 && r > 0)) && len(versionedOps) > 0 {
 						// thundering herd on an origin whose content changes: right after the start of
